@@ -1169,7 +1169,11 @@ func (m *Nitro) LoadFromDisk(dir string, concurr int, callb ItemCallback) (*Snap
 		}
 	}
 
+	// The restored structure replaces the (empty) one the instance was created with
+	oldStore := m.store
 	m.store = b.Assemble(segments...)
+	oldStore.FreeNode(oldStore.HeadNode(), &oldStore.Stats)
+	oldStore.FreeNode(oldStore.TailNode(), &oldStore.Stats)
 
 	// Delta processing
 	if m.useDeltaFiles {
